@@ -566,6 +566,8 @@ impl Server {
                 // poll_write exactly once (spawns the blocking task), then drop the writer while the
                 // task may still be in flight
                 let d = a!(data_arg(&req["data"]));
+                let delay = req.get("delay_ms").and_then(|x| x.as_u64()).unwrap_or(0);
+                let linger = req.get("linger_ms").and_then(|x| x.as_u64()).unwrap_or(0);
                 match self.take(req)? {
                     Sess::AW(mut w) => {
                         let polled = ab(async {
@@ -577,10 +579,18 @@ impl Server {
                             let r = tokio::io::AsyncWrite::poll_write(std::pin::Pin::new(&mut w), &mut cx, &d);
                             let pending = r.is_pending();
                             marker("M1");
+                            if delay > 0 {
+                                // let the blocking task run to completion first: its result (and the temp file)
+                                // is then parked in the join handle and dropped by this thread
+                                std::thread::sleep(std::time::Duration::from_millis(delay));
+                            }
                             drop(w);
                             marker("M2");
                             pending
                         });
+                        if linger > 0 {
+                            std::thread::sleep(std::time::Duration::from_millis(linger));
+                        }
                         Ok(json!({"pending": polled}))
                     }
                     _ => Err(bad("not an async writer".into())),
